@@ -179,19 +179,46 @@ def _shared(default):
     return _SHARED_DEFAULTS[key], key
 
 
+def omit_call_sites():
+    """every `check_types(...)` call of input_manager.py in source order: (line, source text of the
+    `omit_keys` argument or None, AST node type of that argument, its VALUE evaluated in the module's own
+    namespace - exactly the object the call hands to check_types: a list, a tuple, or, with a missing
+    comma, a bare string)"""
+    import ast as _ast
+    import file_processing.input_processing.input_manager as _imod
+
+    path = os.path.join(shim.REPO_SRC, "file_processing", "input_processing", "input_manager.py")
+    tree = _ast.parse(open(path).read())
+    rows = []
+    for node in _ast.walk(tree):
+        if isinstance(node, _ast.Call) and isinstance(node.func, _ast.Name) and node.func.id == "check_types":
+            kw = next((k for k in node.keywords if k.arg == "omit_keys"), None)
+            if kw is None:
+                rows.append((node.lineno, None, None, None))
+                continue
+            try:
+                val = eval(compile(_ast.Expression(kw.value), "<omit_keys>", "eval"), vars(_imod))
+            except Exception as e:  # noqa: BLE001
+                val = ("unevaluable", repr(e))
+            elts = getattr(kw.value, "elts", None)
+            rows.append((node.lineno, _ast.unparse(kw.value), type(kw.value).__name__ + (f"[{len(elts)}]" if elts is not None else ""), val))
+    return sorted(rows, key=lambda r: r[0])
+
+
 def real_check(omit, default, test):
+    """`omit` is handed to check_types as the object it is (list / tuple / whatever a call site passes)"""
     d, dkey = _shared(default)
     t = copy.deepcopy(test)
     tkey = canon(t)
-    om = list(omit)
+    om = copy.copy(omit)
     r = guarded(lambda: check_types(d, t, "verif", omit_keys=om) or "ok")
     if canon(d) != dkey:
         INPUT_MUTATIONS.append(("check_types", "default", dkey[:300], canon(d)[:300]))
         _SHARED_DEFAULTS.pop(dkey, None)
     if canon(t) != tkey:
         INPUT_MUTATIONS.append(("check_types", "test", tkey[:300], canon(t)[:300]))
-    if om != list(omit):
-        INPUT_MUTATIONS.append(("check_types", "omit_keys", str(list(omit)), str(om)))
+    if om != omit:
+        INPUT_MUTATIONS.append(("check_types", "omit_keys", repr(omit), repr(om)))
     return r
 
 
